@@ -27,7 +27,7 @@ def gen_effects(rng, c, rate=0.25):
                 lst = []
                 for _ in range(rng.choice([1, 1, 1, 2, 3])):
                     ek = rng.choice(["F", "F", "L", "D", "R", "S"])
-                    lst.append((ek, rng.randrange(c.nsig) if ek != "S" else rng.randrange(5)))
+                    lst.append((ek, rng.randrange(c.nsig) if ek != "S" else rng.choice([0, 1, 2, 3, 4, 90, 91])))
                 eff[(i, k)] = lst
     return eff
 
@@ -107,6 +107,8 @@ def run_real(c, eff, cap, ops, spied=True, instrumented=True, want_spy=False):
             elif ek == "R":
                 chart.recall()
             else:
+                if a >= 90 and hasattr(chart, "current_state"):
+                    chart.current_state()      # a handler asking the chart for its state (no line, no effect)
                 chart.scribble("SCRIBBLE%d" % a)
 
     fns = c.build(log, spied=spied, counter=hsm._vp_count, effects=effects)
